@@ -1,5 +1,6 @@
 import ChiDriver.Common
 import ChiModel.ShapeEta
+import ChiModel.TopNames
 open Wire ChiModel
 namespace ChiDriver.C02
 
@@ -70,5 +71,42 @@ def total : Op
     | sc => some [scoreVal (ls.foldl (fun acc l => Score.add acc l) sc)]
   | _ => none
 
-def ops : List (String × Op) := [("C02.call", call), ("C02.total", total)]
+/-! ## population-level names under a call history (`ChiModel/TopNames.lean`) -/
+
+def escSp (s : String) : String := s.replace " " "%20"
+def ofNames (l : List String) : Val := ofStrs (l.map escSp)
+
+/-- `[0]` reset · `[1, names]` rename · `[2, dims]` set_dim_names · `[3, n]` set_n_ids ·
+    `[4, k]` reset of sub-model k · `[5, mask, names]` rename through a reduced model -/
+def parseNameOp (v : Val) : Option TopNames.Op := do
+  match v with
+  | .list [.int 0] => some .reset
+  | .list [.int 1, names] => some (.rename (← names.strs?))
+  | .list [.int 2, dims] => some (.setDims (← dims.strs?))
+  | .list [.int 3, n] => some (.setNIds (← n.nat?))
+  | .list [.int 4, k] => some (.resetSub (← k.nat?))
+  | .list [.int 5, mask, names] => some (.renameFree (← (← mask.list?).mapM Val.bool?) (← names.strs?))
+  | _ => none
+
+/-- `C02.names composed subs nIds0 ops` → the names the population model publishes after
+    construction and after every call of the history (a call that raises ends the list with the
+    error) -/
+def names : Op
+  | [.bool composed, subsV, nIds0V, opsV] => do
+    let subs ← (← subsV.list?).mapM parseSub
+    let nIds0 ← nIds0V.nats?
+    let ops ← (← opsV.list?).mapM parseNameOp
+    if nIds0.length ≠ subs.length then none else
+    let rec go (sts : List TopNames.St) (ops : List TopNames.Op) (acc : List Val) : List Val :=
+      match ops with
+      | [] => acc.reverse
+      | op :: rest =>
+        match TopNames.step subs sts op with
+        | .error _ => (errVal "valueError" :: acc).reverse
+        | .ok sts' => go sts' rest (ofNames (TopNames.pubAll subs sts') :: acc)
+    let st0 := TopNames.initAll composed subs nIds0
+    some [.list (go st0 ops [ofNames (TopNames.pubAll subs st0)])]
+  | _ => none
+
+def ops : List (String × Op) := [("C02.call", call), ("C02.total", total), ("C02.names", names)]
 end ChiDriver.C02
